@@ -22,15 +22,17 @@ def lastPerName : Headers → List (Str × Str)
   | (n, v) :: rest =>
     if rest.any (fun kv => kv.1 = n) then lastPerName rest else (n, v) :: lastPerName rest
 
-/-- `str::trim` on a visible-ASCII value: spaces and tabs -/
-def trimValue (v : Str) : Str := trim v
+/-- header value bytes (one `Char` per byte) as the text the code signs:
+`String::from_utf8_lossy(value.as_bytes())` then `str::trim` -/
+def valueText (v : Str) : Str := trimUni (utf8DecodeLossy (v.map fun c => UInt8.ofNat c.toNat))
 
-/-- `headers_to_canonicalized_string`; `none` models the `to_str().unwrap()` panic -/
-def canonHeaders (hs : Headers) : Option Str :=
-  if hs.all (fun kv => valueIsStr kv.2) then
-    let m := sortBy (fun a b => strLt a.1 b.1) (lastPerName hs)
-    some ((m.filter (fun kv => kv.1 ≠ authHeader)).flatMap fun kv => kv.1 ++ [':'] ++ trimValue kv.2 ++ ['\n'])
-  else none
+/-- the code before the fix: `value.to_str().unwrap()` — `none` is the panic -/
+def valueTextStrict (v : Str) : Option Str := if valueIsStr v then some (trim v) else none
+
+/-- `headers_to_canonicalized_string` -/
+def canonHeaders (hs : Headers) : Str :=
+  let m := sortBy (fun a b => strLt a.1 b.1) (lastPerName hs)
+  (m.filter (fun kv => kv.1 ≠ authHeader)).flatMap fun kv => kv.1 ++ [':'] ++ valueText kv.2 ++ ['\n']
 
 /-- de-duplicate on the map key `lower(key) ++ value`, later pair wins -/
 def lastPerKey : List (Str × (Str × Str)) → List (Str × (Str × Str))
@@ -47,21 +49,13 @@ def canonParams (u : Uri) : Str :=
   | [] => []
   | p :: ps => ps.foldl (fun acc q => acc ++ ['&'] ++ q) p
 
-def strBytes (s : Str) : List UInt8 := s.map fun c => UInt8.ofNat c.toNat
-
 /-- `as_sig_input(head, body)` — the proxy's route -/
-def sigInput (method : Str) (body : List UInt8) (hs : Headers) (u : Uri) : Option (List UInt8) :=
-  match canonHeaders hs with
-  | none => none
-  | some ch =>
-    some (strBytes method ++ [10] ++ body ++ [10] ++ strBytes ch ++ strBytes u.path ++ [10] ++ strBytes (canonParams u))
+def sigInput (method : Str) (body : List UInt8) (hs : Headers) (u : Uri) : List UInt8 :=
+  utf8 method ++ [10] ++ body ++ [10] ++ utf8 (canonHeaders hs) ++ utf8 u.path ++ [10] ++ utf8 (canonParams u)
 
 /-- `request_to_sign_input(builder, body)` — the agent's own calls -/
-def sigInputBuilder (method : Str) (body : Option (List UInt8)) (hs : Headers) (u : Uri) : Option (List UInt8) :=
-  match canonHeaders hs with
-  | none => none
-  | some ch =>
-    some (strBytes method ++ [10] ++ (body.getD []) ++ [10] ++ strBytes ch ++ strBytes u.path ++ [10] ++ strBytes (canonParams u))
+def sigInputBuilder (method : Str) (body : Option (List UInt8)) (hs : Headers) (u : Uri) : List UInt8 :=
+  utf8 method ++ [10] ++ (body.getD []) ++ [10] ++ utf8 (canonHeaders hs) ++ utf8 u.path ++ [10] ++ utf8 (canonParams u)
 
 /-- `should_skip_sig(method, uri)` -/
 def shouldSkipSig (method : Str) (u : Uri) : Bool :=
